@@ -850,18 +850,90 @@ def concretise(optrow, pf, rng):
     return o
 
 
+def rule_key_lists(pf):
+    """For every layout subtable of the original font: (keys, sets).  keys = the glyphs its coverage / first position
+    lists, in glyph order (the order in which the font stores per-glyph records); sets = groups of glyphs that stand
+    for one class (mark classes, ClassDef classes, context position sets)."""
+    out = []
+    for tb in ("gsub", "gpos"):
+        for lk in pf["L"][tb]["lookups"]:
+            ty = lk["ty"]
+            for st in lk["st"]:
+                keys, sets = [], []
+                if ty in ("sub1", "sub2", "sub3", "pos1", "curs"):
+                    keys = [e[0] for e in st["m"]]
+                elif ty == "sub4":
+                    keys = [c[0][0] for c in st["l"]]
+                    sets = [list(c[0]) for c in st["l"]]
+                elif ty == "rsub":
+                    for r in st["r"]:
+                        keys += [e[0] for e in r["m"]]
+                        sets += [list(x) for x in r["b"] + r["a"]]
+                elif ty == "ctx":
+                    for r in st["r"]:
+                        keys += list(r["i"][0]) if r["i"] else []
+                        sets += [list(x) for x in r["b"] + r["i"] + r["a"]]
+                elif ty == "pos2":
+                    if st["f"] == 1:
+                        keys = [e[0] for e in st["p"]]
+                        sets = [[e[1] for e in st["p"] if e[0] == k] for k in sorted({e[0] for e in st["p"]})]
+                    else:
+                        keys = list(st["cov"])
+                        sets = [list(e[0]) for e in st["c"]] + [list(e[1]) for e in st["c"]]
+                elif ty in ("mkb", "mkm", "mkl"):
+                    keys = [b[0] for b in st.get("bases", st.get("ligs", []))]
+                    sets = [[m[0] for m in st["marks"] if m[1] == c] for c in sorted({m[1] for m in st["marks"]})]
+                    sets.append([m[0] for m in st["marks"]])
+                keys = sorted(set(keys))
+                sets = [sorted(set(x)) for x in sets if x]
+                if len(keys) >= 2 or sets:
+                    out.append((keys, sets))
+    return out
+
+
 def make_requests(pf, order, rng, count):
-    """Seeded requests over the characters and glyphs of the font."""
+    """Seeded requests over the characters and glyphs of the font.  The first two are aimed at the renumbering of
+    per-glyph records and of classes: `split` drops a leading part of the glyphs one subtable lists (and keeps
+    everything else), `dropset` drops all glyphs of one class / position set of one subtable; then half of the
+    characters; then the other request forms (single character, glyph names, glyph ids, text, all but one, mixed,
+    a few, everything) in a rotation that starts at a font-dependent place."""
     chars = sorted({u for u, _g in pf["cmap"]})
+    by_glyph = {}
+    for u, g in pf["cmap"]:
+        by_glyph.setdefault(g, []).append(u)
     reqs = []
     n = pf["n"]
+    rules = rule_key_lists(pf)
 
     def some_chars(k):
         return sorted(rng.sample(chars, min(k, len(chars)))) if chars else []
 
-    kinds = ["single", "half", "allbut1", "names", "gids", "text", "mixed", "few", "all", "single"]
+    def all_but_glyphs(gs):
+        gs = set(gs)
+        drop = {u for g in gs for u in by_glyph.get(g, [])}
+        return {"unicodes": [u for u in chars if u not in drop]}
+
+    rest = ["single", "names", "gids", "text", "allbut1", "mixed", "few", "all"]
+    off = rng.randrange(len(rest))
+    kinds = ["split", "dropset", "half"] + [rest[(off + i) % len(rest)] for i in range(max(0, count - 3))]
     for kind in kinds[:count]:
-        if kind == "single":
+        if kind == "split":
+            cands = [k for k, _s in rules if len([g for g in k if g in by_glyph]) >= 2]
+            if cands:
+                keys = [g for g in rng.choice(cands) if g in by_glyph]
+                cut = rng.randint(1, len(keys) - 1)
+                drop = keys[:cut] if rng.random() < 0.7 else rng.sample(keys, cut)
+                r = all_but_glyphs(drop)
+            else:
+                r = {"unicodes": some_chars(rng.randint(2, 6))}
+        elif kind == "dropset":
+            cands = [x for _k, ss in rules for x in ss if any(g in by_glyph for g in x)]
+            if cands:
+                r = all_but_glyphs(rng.choice(cands))
+            else:
+                drop = rng.choice(chars) if chars else None
+                r = {"unicodes": [u for u in chars if u != drop]}
+        elif kind == "single":
             r = {"unicodes": some_chars(1)}
         elif kind == "half":
             r = {"unicodes": some_chars(max(1, len(chars) // 2))}
@@ -939,10 +1011,12 @@ def corpus_job(job):
         optd = concretise(optrows[(k + rng.randrange(len(optrows))) % len(optrows)] if k >= 3 else
                           dict(optrows[k % len(optrows)], layout_features=["*"], layout_closure=True, layout_scripts=["*"]), pf, rng)
         rq = {k2: v for k2, v in req.items() if k2 != "kind"}
-        trace, sk = record_case(data, idx, pf, rq, optd, rng, "V", label, nprobe=nprobe, esc=escapes(uns))
+        rk = "%s#%d#%s#%d" % (common.rel(path), idx, seed, k)  # the probes of a case depend on nothing but this (replayable)
+        trace, sk = record_case(data, idx, pf, rq, optd, random.Random(rk), "V", label, nprobe=nprobe, esc=escapes(uns))
         for r, c in sk.items():
             skips[r] = skips.get(r, 0) + c
-        trace["replay"] = {"mode": "V", "path": common.rel(path), "idx": idx, "req": rq, "opts": optd, "reqkind": req["kind"]}
+        trace["replay"] = {"mode": "V", "path": common.rel(path), "idx": idx, "req": rq, "opts": optd, "reqkind": req["kind"],
+                           "rk": rk, "nprobe": nprobe}
         cases.append(trace)
     return {"label": label, "font": _font_for_tlc(pf, False), "cases": cases, "skips": skips,
             "unsupported": sorted({r for _w, r in uns})}
@@ -1214,10 +1288,18 @@ def run(chk):
         "MinClosure is computed by TLC from the projected GSUB of the original font; constructs outside the projection "
         "(FeatureVariations alternates, cmap format 14, COLRv1 paints, CFF seac) only make it smaller (it is a lower bound)",
         "named deviations modelled: CmapFormat0Dropped (format-0 cmap subtables are dropped by design), NotdefOutlineDropped "
-        "(notdef_glyph and not notdef_outline empties glyph 0), ChaosSkipped (lower bound after non 1-to-1 nested lookups)",
+        "(notdef_glyph and not notdef_outline empties glyph 0: outline, side bearing, its gvar entry incl. phantom-point deltas), "
+        "ChaosSkipped (lower bound after non 1-to-1 nested lookups), GlyphZeroLost (finding no-notdef-glyph-zero: reported, not excused)",
+        "domain: EmptyGlyphSet (a request that selects no glyph has no font as answer), NoClosureEscape (without layout_closure shaping "
+        "equality is claimed for texts whose shaping in the original cannot leave glyphs_gsubed; decided by TLC with an upper bound of "
+        "the GSUB closure), OriginalRefersOutsideGlyphSet (original lookups that output glyph ids the font does not have), "
+        "dropping .notdef only for TrueType flavour (subset --help)",
         "HarfBuzz shaping is compared with the same explicit feature settings on both fonts: features the options drop are switched "
-        "off, scripts the options drop or the feature restriction empties are not probed; probe texts avoid default-ignorable, "
-        "decomposable and Hangul code points (DESIGN section 9 rule 5)",
+        "off; a (script, language) is probed only if the shaper selects the same language system in both fonts (ScriptPrunedFallback); "
+        "no comparison when exactly one font has GDEF glyph classes (HBSynthesizedClasses; kept:gdef-glyph-class-changed guards the "
+        "classes themselves); value 2 (second alternate) only for up to 10 features that reach an AlternateSubst (HBMaskBits); probe "
+        "texts avoid default-ignorable, decomposable and Hangul code points (DESIGN section 9 rule 5); WOFF/WOFF2 originals are "
+        "unwrapped to plain sfnt for HarfBuzz",
         "options.legacy_kern is forced on (dropping 'kern' when GPOS exists is a documented lossy default outside the property)",
     ]
 
@@ -1237,7 +1319,8 @@ def replay(chk, rep):
         path = os.path.join(os.path.dirname(common.TESTS), rp["path"])
         data = corpus_bytes(path)
         pf, _uns = project_font(TTFont(io.BytesIO(data), fontNumber=rp["idx"]))
-        t, _sk = record_case(data, rp["idx"], pf, rp["req"], rp["opts"], random.Random("replay"), "V", rp["path"], nprobe=60, esc=escapes(_uns))
+        t, _sk = record_case(data, rp["idx"], pf, rp["req"], rp["opts"], random.Random(rp.get("rk", "replay")), "V", rp["path"],
+                             nprobe=rp.get("nprobe", 60), esc=escapes(_uns))
         t["replay"] = rp
         fonts = [_font_for_tlc(pf, False)]
     t["font"] = 1
